@@ -615,49 +615,25 @@ fn record(args: &Args) {
         out.emit(&json!({"a": "run", "mode": if fee { "fee" } else { "nofee" }, "cfg": cfg_json(&p), "prog": ops_json(&ops), "obs": o.json(),
                          "seen": {"events": o.events_in_run, "logs": o.logs, "entered": o.started}}));
     }
-    // unit level: the LimitsModule's own counters through its public API
+    // unit level: the LimitsModule's own counters through its public API.
+    // (1) the FULL boundary product, in every tier: (key kind) x (key / value / heap / track limit) x
+    //     (one below, at, one above), reached by insert, by update, and again after a removal;
+    for ev in unit_boundary_sequences() {
+        out.emit(&ev);
+    }
+    // (2) seeded random sequences (the bulk)
     for _ in 0..units {
-        let cfg = TransactionLimitsConfig {
-            max_call_depth: 8,
-            max_heap_substate_total_bytes: rng.gen_range(40..400),
-            max_track_substate_total_bytes: rng.gen_range(40..400),
-            max_substate_key_size: rng.gen_range(0..40),
-            max_substate_value_size: rng.gen_range(0..100),
-            max_invoke_payload_size: 1000,
-            max_event_size: 100,
-            max_log_size: 100,
-            max_panic_message_size: 100,
-            max_number_of_logs: 10,
-            max_number_of_events: 10,
-        };
-        let cfgj = json!({"heap": cfg.max_heap_substate_total_bytes, "track": cfg.max_track_substate_total_bytes,
-                          "key": cfg.max_substate_key_size, "value": cfg.max_substate_value_size});
-        let mut module = LimitsModule::new(cfg);
+        let (heap, track, key, value) = (rng.gen_range(40..400), rng.gen_range(40..400), rng.gen_range(0..40), rng.gen_range(0..100));
         // entries alive in heap / track: (kind, key bytes) -> size (so that old sizes are consistent)
         let mut live: [std::collections::BTreeMap<(u8, usize), usize>; 2] = [Default::default(), Default::default()];
-        let mut calls = vec![];
-        let mut obs = vec![];
+        let mut calls: Vec<UnitCall> = vec![];
         for _ in 0..rng.gen_range(1..14) {
             let kind = rng.gen_range(0..3u8);
-            let kname = ["map", "sorted", "field"][kind as usize];
             let n = if kind == 2 { 1 } else { rng.gen_range(0..50usize) };
-            let sk = match kind {
-                0 => SubstateKey::Map(vec![7u8; n]),
-                1 => SubstateKey::Sorted(([1, 2], vec![7u8; n])),
-                _ => SubstateKey::Field(n as u8),
-            };
-            let which = rng.gen_range(0..10);
-            let (call, r) = match which {
-                0 => (json!({"k": "key", "kind": kname, "n": n, "old": 0, "new": 0}), module.process_substate_key(&sk)),
-                1 => {
-                    let len = rng.gen_range(4..120usize);
-                    let v = IndexedScryptoValue::from_vec(bytes_payload(len, 0).unwrap()).unwrap();
-                    (json!({"k": "value", "kind": kname, "n": len, "old": 0, "new": 0}), module.process_substate_value(&v))
-                }
-                2 => {
-                    let ck = CanonicalSubstateKey { node_id: NodeId([3u8; 30]), partition_number: PartitionNumber(1), substate_key: sk };
-                    (json!({"k": "read", "kind": kname, "n": n, "old": 0, "new": 0}), module.process_io_access(&IOAccess::ReadFromDb(ck, 77)))
-                }
+            match rng.gen_range(0..10) {
+                0 => calls.push(UnitCall { k: "key", kind, n, old: None, new: None }),
+                1 => calls.push(UnitCall { k: "value", kind, n: rng.gen_range(4..120usize), old: None, new: None }),
+                2 => calls.push(UnitCall { k: "read", kind, n, old: None, new: None }),
                 _ => {
                     let side = rng.gen_range(0..2usize);
                     let old = live[side].get(&(kind, n)).copied();
@@ -670,34 +646,121 @@ fn record(args: &Args) {
                             live[side].remove(&(kind, n));
                         }
                     }
-                    let ck = CanonicalSubstateKey { node_id: NodeId([3u8; 30]), partition_number: PartitionNumber(1), substate_key: sk };
-                    let io = if side == 0 {
-                        IOAccess::HeapSubstateUpdated { canonical_substate_key: ck, old_size: old, new_size: new }
-                    } else {
-                        IOAccess::TrackSubstateUpdated { canonical_substate_key: ck, old_size: old, new_size: new }
-                    };
-                    let enc = |x: Option<usize>| x.map(|v| v as i64).unwrap_or(-1);
-                    (
-                        json!({"k": if side == 0 { "heap" } else { "track" }, "kind": kname, "n": n, "old": enc(old), "new": enc(new)}),
-                        module.process_io_access(&io),
-                    )
+                    calls.push(UnitCall { k: if side == 0 { "heap" } else { "track" }, kind, n, old, new });
                 }
-            };
-            calls.push(call);
-            obs.push(match r {
-                Ok(()) => json!({"r": "ok", "v": 0}),
-                Err(RuntimeError::SystemModuleError(SystemModuleError::TransactionLimitsError(e))) => {
-                    let v = match &e {
-                        TransactionLimitsError::MaxSubstateKeySizeExceeded(x) | TransactionLimitsError::MaxSubstateSizeExceeded(x) => *x,
-                        TransactionLimitsError::HeapSubstateSizeExceeded { actual, .. } | TransactionLimitsError::TrackSubstateSizeExceeded { actual, .. } => *actual,
-                        _ => 0,
-                    };
-                    json!({"r": limits_class(&e), "v": v})
-                }
-                Err(e) => json!({"r": error_class(&e), "v": 0}),
-            });
+            }
         }
-        out.emit(&json!({"a": "unit", "cfg": cfgj, "calls": calls, "obs": obs}));
+        out.emit(&run_unit(heap, track, key, value, &calls));
     }
     out.flush();
+}
+
+/// one call of the LimitsModule's public API (inputs only)
+pub struct UnitCall {
+    pub k: &'static str, // key | value | read | heap | track
+    pub kind: u8,        // 0 map, 1 sorted, 2 field
+    pub n: usize,        // key bytes (or value length for k = value)
+    pub old: Option<usize>,
+    pub new: Option<usize>,
+}
+
+/// executes a call sequence on a fresh LimitsModule and records what each call returned
+pub fn run_unit(heap: usize, track: usize, key: usize, value: usize, calls: &[UnitCall]) -> Value {
+    let cfg = TransactionLimitsConfig {
+        max_call_depth: 8,
+        max_heap_substate_total_bytes: heap,
+        max_track_substate_total_bytes: track,
+        max_substate_key_size: key,
+        max_substate_value_size: value,
+        max_invoke_payload_size: 1000,
+        max_event_size: 100,
+        max_log_size: 100,
+        max_panic_message_size: 100,
+        max_number_of_logs: 10,
+        max_number_of_events: 10,
+    };
+    let mut module = LimitsModule::new(cfg);
+    let mut cj = vec![];
+    let mut obs = vec![];
+    for c in calls {
+        let kname = ["map", "sorted", "field"][c.kind as usize];
+        let sk = match c.kind {
+            0 => SubstateKey::Map(vec![7u8; c.n]),
+            1 => SubstateKey::Sorted(([1, 2], vec![7u8; c.n])),
+            _ => SubstateKey::Field(c.n as u8),
+        };
+        let ck = CanonicalSubstateKey { node_id: NodeId([3u8; 30]), partition_number: PartitionNumber(1), substate_key: sk.clone() };
+        let enc = |x: Option<usize>| x.map(|v| v as i64).unwrap_or(-1);
+        let r = match c.k {
+            "key" => module.process_substate_key(&sk),
+            "value" => module.process_substate_value(&IndexedScryptoValue::from_vec(bytes_payload(c.n, 0).expect("harness: unit value size")).unwrap()),
+            "read" => module.process_io_access(&IOAccess::ReadFromDb(ck, 77)),
+            "heap" => module.process_io_access(&IOAccess::HeapSubstateUpdated { canonical_substate_key: ck, old_size: c.old, new_size: c.new }),
+            "track" => module.process_io_access(&IOAccess::TrackSubstateUpdated { canonical_substate_key: ck, old_size: c.old, new_size: c.new }),
+            x => panic!("harness: unit call {}", x),
+        };
+        let io = c.k == "heap" || c.k == "track";
+        cj.push(json!({"k": c.k, "kind": kname, "n": c.n, "old": if io { enc(c.old) } else { 0 }, "new": if io { enc(c.new) } else { 0 }}));
+        obs.push(match r {
+            Ok(()) => json!({"r": "ok", "v": 0}),
+            Err(RuntimeError::SystemModuleError(SystemModuleError::TransactionLimitsError(e))) => {
+                let v = match &e {
+                    TransactionLimitsError::MaxSubstateKeySizeExceeded(x) | TransactionLimitsError::MaxSubstateSizeExceeded(x) => *x,
+                    TransactionLimitsError::HeapSubstateSizeExceeded { actual, .. } | TransactionLimitsError::TrackSubstateSizeExceeded { actual, .. } => *actual,
+                    _ => 0,
+                };
+                json!({"r": limits_class(&e), "v": v})
+            }
+            Err(e) => json!({"r": error_class(&e), "v": 0}),
+        });
+    }
+    json!({"a": "unit", "cfg": {"heap": heap, "track": track, "key": key, "value": value}, "calls": cj, "obs": obs})
+}
+
+/// Deterministic inputs around every limit of the module (input generation only; what the answers
+/// must be is decided by LimitsUnit.tla).
+pub fn unit_boundary_sequences() -> Vec<Value> {
+    let mut res = vec![];
+    let (heap, track, key, value) = (100usize, 120usize, 10usize, 20usize);
+    let d3 = [-1i64, 0, 1];
+    // key size: map key of n bytes counts n, sorted 2 + n, field 1 (key limits 0, 1, 2 for the field key)
+    for d in d3 {
+        let n = (key as i64 + d) as usize;
+        res.push(run_unit(heap, track, key, value, &[UnitCall { k: "key", kind: 0, n, old: None, new: None }]));
+        res.push(run_unit(heap, track, key, value, &[UnitCall { k: "key", kind: 1, n: n - 2, old: None, new: None }]));
+        res.push(run_unit(heap, track, (1 + d) as usize, value, &[UnitCall { k: "key", kind: 2, n: 0, old: None, new: None }]));
+        res.push(run_unit(heap, track, key, value, &[UnitCall { k: "value", kind: 0, n: (value as i64 + d) as usize, old: None, new: None }]));
+    }
+    // byte counters: (heap | track) x (key kind) x (one below, at, one above the limit) x (how the value is reached)
+    for (side, max) in [("heap", heap), ("track", track)] {
+        for kind in 0..3u8 {
+            let n = if kind == 2 { 0 } else { 5 };
+            let canon = 31 + match kind { 0 => n, 1 => n + 2, _ => 1 };
+            for d in d3 {
+                let target = (max as i64 + d) as usize; // counter value to reach
+                let size = target - canon;
+                let ins = |sz: usize| UnitCall { k: side, kind, n, old: None, new: Some(sz) };
+                // by one insert
+                res.push(run_unit(heap, track, key, value, &[ins(size)]));
+                // by an update of an existing entry (grow), and shrinking back below
+                res.push(run_unit(heap, track, key, value, &[ins(3), UnitCall { k: side, kind, n, old: Some(3), new: Some(size) },
+                                                            UnitCall { k: side, kind, n, old: Some(size), new: Some(size - 2) }]));
+                // removed and inserted again: the key length must have been given back
+                res.push(run_unit(heap, track, key, value, &[ins(9), UnitCall { k: side, kind, n, old: Some(9), new: None }, ins(size)]));
+                // two entries (second key one byte longer / another field) summing up to the target
+                let (n2, canon2) = if kind == 2 { (1usize, canon) } else { (n + 1, canon + 1) };
+                if target > canon + canon2 + 4 {
+                    res.push(run_unit(heap, track, key, value, &[ins(4), UnitCall { k: side, kind, n: n2, old: None, new: Some(target - canon - 4 - canon2) }]));
+                }
+                // the OTHER counter is checked on every access too: the other side sits at its own limit + d,
+                // then a database read and a small access on this side follow
+                let (other, omax) = if side == "heap" { ("track", track) } else { ("heap", heap) };
+                let osize = (omax as i64 + d) as usize - canon;
+                res.push(run_unit(heap, track, key, value, &[UnitCall { k: other, kind, n, old: None, new: Some(osize) },
+                                                            UnitCall { k: "read", kind, n, old: None, new: None },
+                                                            UnitCall { k: side, kind, n, old: None, new: Some(1) }]));
+            }
+        }
+    }
+    res
 }
